@@ -253,34 +253,35 @@ def _job(jid, nodes, evals, pairs=()):
     return dict(id=jid, N=N, argsh=[ARGSH[a] for a in sorted(ARGSH)], evals=ev, pairs=[dict(a=a, b=b) for a, b in pairs])
 
 
-def evaluate(jobs, tag='evaldag', nproc=None, timeout=1800):
-    """jobs: list of (nodes, evals, pairs). Returns (list of results in job order, TLC stats list).
-    result = dict(vals=[array dicts], verdicts=[...]) or None if TLC could not evaluate the job."""
-    if not jobs:
+def run_jobs(module, jobdicts, tag, nproc=None, timeout=1800):
+    """run spec/<module>.tla (a job-evaluating spec: one initial state per job, work done in the constraint)
+    over `jobdicts` (each with an integer 'id' = position) split over parallel single-worker TLC processes.
+    Returns (results by position (None where TLC emitted nothing), list of tlc.Result for statistics)."""
+    import shutil
+    if not jobdicts:
         return [], []
-    nproc = nproc or min(16, max(1, len(jobs) // 8))
+    nproc = nproc or min(16, max(1, len(jobdicts) // 8))
     wd = tlc.workdir(tag)
     chunks = [[] for _ in range(nproc)]
-    for i, (nodes, evals, pairs) in enumerate(jobs):
-        chunks[i % nproc].append(_job(i, nodes, evals, pairs))
+    for i, j in enumerate(jobdicts):
+        chunks[i % nproc].append(j)
     procs = []
-    import shutil
     for c, chunk in enumerate(chunks):
         if not chunk:
             continue
         cd = os.path.join(wd, 'c{}'.format(c))
         os.makedirs(cd)
-        for fn in ('ArraySem.tla', 'EvalDag.tla', 'EvalDag.cfg'):
+        for fn in ('ArraySem.tla', module + '.tla', module + '.cfg'):
             shutil.copy(os.path.join(tlc.SPEC, fn), cd)
         jp = os.path.join(cd, 'jobs.json')
         with open(jp, 'w') as f:
             json.dump(chunk, f)
         cmd = ['java', '-XX:+UseSerialGC', '-XX:TieredStopAtLevel=1', '-Xmx1g', '-Xss32m', '-cp', tlc.JAR, 'tlc2.TLC', '-workers', '1', '-metadir', os.path.join(cd, 'meta'),
-               '-noGenerateSpecTE', '-deadlock', '-config', 'EvalDag.cfg', 'EvalDag.tla']
+               '-noGenerateSpecTE', '-deadlock', '-config', module + '.cfg', module + '.tla']
         e = dict(os.environ, VF_JOBS=jp)
         out = open(os.path.join(cd, 'tlc.out'), 'w')
         procs.append((subprocess.Popen(cmd, cwd=cd, env=e, stdout=out, stderr=subprocess.STDOUT), cd, out))
-    results = [None] * len(jobs)
+    results = [None] * len(jobdicts)
     stats = []
     for p, cd, out in procs:
         try:
@@ -290,14 +291,20 @@ def evaluate(jobs, tag='evaldag', nproc=None, timeout=1800):
         out.close()
         text = open(os.path.join(cd, 'tlc.out'), errors='replace').read()
         res = tlc.Result()
-        res.cmd = 'tlc2.TLC -workers 1 -config EvalDag.cfg EvalDag.tla'
+        res.cmd = 'tlc2.TLC -workers 1 -config {0}.cfg {0}.tla'.format(module)
         tlc.parse(text, res)
         stats.append(res)
         for e in res.emitted:
             results[e['id']] = e
         if p.returncode not in (0,) and not res.emitted:
-            raise tlc.TLCError('EvalDag failed in {}:\n{}'.format(cd, '\n'.join(text.splitlines()[-30:])))
+            raise tlc.TLCError('{} failed in {}:\n{}'.format(module, cd, '\n'.join(text.splitlines()[-30:])))
     return results, stats
+
+
+def evaluate(jobs, tag='evaldag', nproc=None, timeout=1800):
+    """jobs: list of (nodes, evals, pairs). Returns (list of results in job order, TLC stats list).
+    result = dict(vals=[array dicts], verdicts=[...]) or None if TLC could not evaluate the job."""
+    return run_jobs('EvalDag', [_job(i, nodes, evals, pairs) for i, (nodes, evals, pairs) in enumerate(jobs)], tag, nproc, timeout)
 
 
 def arr_value(proj):
